@@ -712,11 +712,18 @@ Idle == /\ \A c \in DOMAIN calls : ClientFinished(c)
         /\ \A h \in DOMAIN hnds : hnds[h].ret
         /\ preq = <<>>
 
-Quiesce(ngor, nsrv) ==
+Quiesce(ngor, nsrv, unreadS, unreadC) ==
   /\ \A p \in pend : p.c \in DOMAIN calls /\ G("pend", PendLegit(p))
   /\ \A v \in live : LiveLegit(v)
   \* every well-formed request delivered to a live server started its handler (C01 "never none")
   /\ G("robust", preq # <<>> => SrvDown \/ Stuck \/ NLiveUnary >= 8)
+  \* a live server keeps reading what is deliverable, unless its worker pool is busy with live handlers or it
+  \* waits (head of line, by design) for a live stream handler that is not reading (C12, C11); likewise the client
+  /\ G("robust", (unreadS > 0 /\ cfg.ncli = 1 /\ ~cfg.rawsrv) => SrvDown \/ Stuck \/ NLiveUnary >= 8
+                      \/ \E v \in live : v.kind # "unary" /\ v.in # "recv")
+  /\ G("pend", (unreadC > 0 /\ cfg.ncli = 1 /\ ~cfg.rawcli) => CliDown \/ Stuck
+                      \/ \E c \in DOMAIN calls : calls[c].kind # "unary" /\ calls[c].opened = "ok" /\ ~CtxDone(c)
+                                                  /\ calls[c].recvd < Len(Cin(calls[c].id).bodies))
   \* every returned handler has its response / close on the wire (C06)
   /\ G("wire", \A h \in DOMAIN hnds : hnds[h].ret /\ ~hnds[h].trW => SrvDown \/ Stuck \/ HCause(h))
   \* bodies for unknown streams were answered with a reset (C12)
